@@ -155,6 +155,7 @@ class Path:
         s.covers = set(); s.notes = []
         s.allocs = []              # (size int) of every heap request on this path
         s.alloc_policy = None      # None | ('max_total', n) | 'none'
+        s.alloc_fail_above = None  # allocator model: requests above this size fail (return null)
         s.heap_total = 0
         s.fn_hits = set()
         s.depth = 0
@@ -825,6 +826,9 @@ class Interp:
         if n in ('bcmp', 'memcmp'):
             return s.memcmp(args[0], args[1], args[2], n)
         if '___rust_alloc' in n and 'realloc' not in n and 'dealloc' not in n and 'shim' not in n:
+            if p.alloc_fail_above is not None:
+                sz = args[0] if isinstance(args[0], int) else p.concretize(args[0], 'allocation size')
+                if sz > p.alloc_fail_above: return 0          # allocation failure: null
             size = s.alloc_size(args[0])
             a = p.alloc(size, 'heap(%d)' % size)
             if 'zeroed' in n: p.store_cells(a, [0] * size)
@@ -835,6 +839,9 @@ class Interp:
             p.free(a); return None
         if '___rust_realloc' in n:
             old, oldsz, al, newsz = args
+            if p.alloc_fail_above is not None:
+                sz = newsz if isinstance(newsz, int) else p.concretize(newsz, 'allocation size')
+                if sz > p.alloc_fail_above: return 0          # realloc failure: null, old block untouched
             newsz = s.alloc_size(newsz)
             oldsz = p.concretize(oldsz) if not isinstance(oldsz, int) else oldsz
             new = p.alloc(newsz, 'heap(%d)' % newsz)
@@ -844,7 +851,7 @@ class Interp:
         if 'RawVechE8grow_one' in n:
             return s.grow_one_u8(args[0])
         if ('panicking' in n or 'slice_index_fail' in n or 'unwrap_failed' in n or 'expect_failed' in n
-                or 'handle_error' in n or 'handle_alloc_error' in n or 'capacity_overflow' in n
+                or 'handle_error' in n or 'handle_alloc_error' in n or 'capacity_overflow' in n or 'alloc_error' in n
                 or 'panic' in n or 'slice_start_index' in n or 'slice_end_index' in n or 'slice_index_order' in n
                 or 'copy_from_slice' in n and 'len_mismatch' in n):
             raise PathEnd('panic', s.describe_panic(n, args))
